@@ -23,6 +23,9 @@ def Vector_head (truth : Term → Bool) (n_is_None : Bool) (dataiter_DEFAULT_PEE
 /-- the decorators of dataiter/vector.py: Vector.head, outermost first -/
 def Vector_head_decorators : List String := []
 
+/-- the signature of dataiter/vector.py: Vector.head: parameters in order, with the source text of their defaults -/
+def Vector_head_signature : List String := ["self", "n=None"]
+
 /-- dataiter/vector.py: Vector.tail (sha256 of the function source: 98e4021f7e2275cc) -/
 def Vector_tail (truth : Term → Bool) (n_is_None : Bool) (dataiter_DEFAULT_PEEK_ELEMENTS : Int) (self_length : Int) (n : Int) : Out :=
   if n_is_None then
@@ -35,5 +38,8 @@ def Vector_tail (truth : Term → Bool) (n_is_None : Bool) (dataiter_DEFAULT_PEE
 
 /-- the decorators of dataiter/vector.py: Vector.tail, outermost first -/
 def Vector_tail_decorators : List String := []
+
+/-- the signature of dataiter/vector.py: Vector.tail: parameters in order, with the source text of their defaults -/
+def Vector_tail_signature : List String := ["self", "n=None"]
 
 end DI.Gen
